@@ -12,7 +12,7 @@ C09.f K12 re-indexing pairs old and new indices in a defined order (no iteration
 from __future__ import annotations
 
 import ast
-from typing import Dict, List, Optional, Set
+from typing import Dict, List, Optional, Set, Tuple
 
 import sympy as sp
 
@@ -66,6 +66,7 @@ def run(idx: Index, rep: Report, tier: str):
     check_index_rewriting(idx, rep)
     check_reindex_order(idx, rep)
     check_redundant_gate_cancellation(idx, rep)
+    check_gate_equality(idx, rep, sets)
     rep.stats.update({"alias_" + k: v for k, v in an.stats.items()})
 
 
@@ -174,11 +175,18 @@ def check_circuit_inverse(idx: Index, rep: Report):
 
 
 # ---------------------------------------------------------------------------------------------------
-def _modulus_sites(f: FunctionInfo) -> List[ast.BinOp]:
+MOD_CALLS = {"math.remainder", "math.fmod", "np.mod", "np.remainder", "np.fmod", "numpy.mod", "numpy.remainder", "numpy.fmod", "remainder", "fmod"}
+
+
+def _modulus_sites(f: FunctionInfo) -> List[Tuple[ast.AST, ast.AST]]:
+    """(site, modulus expression) for every reduction of a gate parameter modulo something: the % operator and the
+    math/numpy remainder functions"""
     out = []
     for n in own_nodes(f.node):
         if isinstance(n, ast.BinOp) and isinstance(n.op, ast.Mod) and "parameter" in norm(n.left):
-            out.append(n)
+            out.append((n, n.right))
+        elif isinstance(n, ast.Call) and norm(n.func) in MOD_CALLS and len(n.args) == 2 and "parameter" in norm(n.args[0]):
+            out.append((n, n.args[1]))
     return out
 
 
@@ -206,38 +214,35 @@ def _fold_modulus(f: FunctionInfo, expr: ast.AST, name: str, name_vars: List[str
 
 
 def check_periods(idx: Index, rep: Report, sets):
+    """every function of gate.py / circuit.py that reduces a gate parameter modulo something: the modulus must be a multiple of the
+    true period of every gate name the reduction can be applied to (the literal name set guarding it, else all parameterised names)"""
     rule = "K9.period"
     n_sites = 0
-    # -- Gate.__eq__: applies to every parameterised name (the name comparison happens before)
-    f = idx.function(f"{GATE}::Gate.__eq__")
-    sites = _modulus_sites(f)
-    for s in sites[:1]:
-        n_sites += 1
-        for name in sorted(sets["PARAMETERIZED_GATES"]):
-            m = _fold_modulus(f, s.right, name, ["ds['name']", "do['name']", "self.name", "name"])
-            _decide_period(rep, rule, f, s, name, m, "two gates that compare equal implement the same operation up to phase")
-    if not sites:
-        rep.info(rule, f, f.node, text="Gate.__eq__ compares parameters exactly", reason="no modulus applied")
-    # -- remove_small_rotations: names from the literal set guarding the test
-    f = idx.function(f"{CIRCUIT}::remove_small_rotations")
-    sites = _modulus_sites(f)
-    names = None
-    for n in own_nodes(f.node):
-        if isinstance(n, ast.Assign) and const_str_set(n.value) is not None and len(const_str_set(n.value)) >= 3:
-            names = const_str_set(n.value)
-    if names is None:
-        raise AnalysisError("remove_small_rotations: rotation name set not found")
-    for s in sites[:1]:
-        n_sites += 1
-        for name in sorted(names):
-            if name not in PERIOD_UP_TO_PHASE:
-                rep.violation(rule, f, s, text=f"{name} dropped as small rotation", what="only rotation gates are dropped", reason=f"{name} is not a rotation")
+    exempt = {"Gate.is_clifford": "tests membership in the Clifford angles k*pi/2, not equivalence of gates"}
+    for rel in (GATE, CIRCUIT):
+        for f in idx.module_by_relpath(rel).functions.values():
+            sites = _modulus_sites(f)
+            if not sites or f.qualname in exempt:
                 continue
-            m = _fold_modulus(f, s.right, name, ["g.name", "gate.name", "name"])
-            _decide_period(rep, rule, f, s, name, m, "a rotation dropped as 'small' is the identity up to phase and threshold")
-    if not sites:
-        rep.info(rule, f, f.node, text="remove_small_rotations tests |angle| directly", reason="no modulus applied")
+            # gate names the reduction applies to
+            names = None
+            for n in own_nodes(f.node):
+                if isinstance(n, ast.Assign) and const_str_set(n.value) is not None and len(const_str_set(n.value)) >= 3 and \
+                        all(x.isupper() for x in const_str_set(n.value)):
+                    names = const_str_set(n.value)
+            applicable = sorted(names) if names is not None else sorted(sets["PARAMETERIZED_GATES"])
+            what = {"Gate.__eq__": "two gates that compare equal implement the same operation up to phase",
+                    "remove_small_rotations": "a rotation dropped as 'small' is the identity up to phase and threshold"}.get(
+                f.qualname, "a gate parameter is only reduced modulo a period of the gate")
+            for site, modexpr in sites:
+                n_sites += 1
+                for name in applicable:
+                    if name not in PERIOD_UP_TO_PHASE:
+                        continue
+                    m = _fold_modulus(f, modexpr, name, ["ds['name']", "do['name']", "self.name", "g.name", "gate.name", "g_prev.name", "name"])
+                    _decide_period(rep, rule, f, site, name, m, what)
     rep.stats["modulus_sites"] = n_sites
+    rep.floor("modulus sites", n_sites, 2)
 
 
 def _decide_period(rep, rule, f, site, name, modulus, what):
@@ -442,3 +447,46 @@ def check_redundant_gate_cancellation(idx: Index, rep: Report):
     rep.decide(len(loops) >= 2, rule, f, f.node, text="all qubits of the gate are inspected and updated",
                what="the per-qubit history is consulted and updated for every qubit of the gate",
                reason="per-qubit loops missing")
+
+
+def check_gate_equality(idx: Index, rep: Report, sets):
+    """Gate.__eq__ folded over pairs of gate records: equal iff same name (CNOT and CX being one name), same qubits, same variational
+    flag and parameters equal modulo the gate's period"""
+    rule = "K9.gate-equality"
+    import math
+    f = idx.function(f"{GATE}::Gate.__eq__")
+
+    def g(name, t=(0,), c=None, p="", v=False):
+        return Rec("Gate", {"name": name, "target": list(t), "control": c, "parameter": p, "is_variational": v})
+
+    def eq(a, b):
+        fo = Folder(env={"pi": math.pi})
+        try:
+            return bool(fo.run_function(f.node, {"self": a, "other": b}))
+        except (Undecidable, Raised) as e:
+            raise AnalysisError(f"Gate.__eq__ not foldable: {e}")
+    cases = []
+    names = ["CNOT", "CX", "CZ", "CY"]
+    for a in names:
+        for b in names:
+            want = a == b or {a, b} <= {"CNOT", "CX"}
+            cases.append((g(a, (1,), [0]), g(b, (1,), [0]), want, f"{a} vs {b} on the same qubits"))
+    cases += [
+        (g("X", (0,)), g("X", (1,)), False, "X on different targets"),
+        (g("CX", (1,), [0]), g("CX", (1,), [2]), False, "CX with different controls"),
+        (g("H", (0,)), g("X", (0,)), False, "H vs X"),
+        (g("RZ", (0,), None, 0.3), g("RZ", (0,), None, 0.3 + 2 * math.pi), True, "RZ(a) vs RZ(a + 2 pi)"),
+        (g("RZ", (0,), None, 0.3), g("RZ", (0,), None, 0.3 + math.pi), False, "RZ(a) vs RZ(a + pi)"),
+        (g("RZ", (0,), None, 0.3), g("RX", (0,), None, 0.3), False, "RZ vs RX"),
+        (g("CRZ", (1,), [0], 0.3), g("CRZ", (1,), [0], 0.3 + 2 * math.pi), False, "CRZ(a) vs CRZ(a + 2 pi)"),
+        (g("CRZ", (1,), [0], 0.3), g("CRZ", (1,), [0], 0.3 + 4 * math.pi), True, "CRZ(a) vs CRZ(a + 4 pi)"),
+        (g("PHASE", (0,), None, -0.2), g("PHASE", (0,), None, 2 * math.pi - 0.2), True, "PHASE(a) vs PHASE(a + 2 pi)"),
+        (g("RX", (0,), None, 0.5, True), g("RX", (0,), None, 0.5, False), False, "variational vs non-variational"),
+        (g("RY", (0,), None, "theta"), g("RY", (0,), None, "theta"), True, "same symbolic parameter"),
+        (g("RY", (0,), None, "theta"), g("RY", (0,), None, "phi"), False, "different symbolic parameters"),
+    ]
+    for a, b, want, label in cases:
+        got = eq(a, b)
+        rep.decide(got == want, rule, f, f.node, text=f"{label}: {'equal' if want else 'different'}",
+                   what="gates compare equal exactly when they implement the same operation up to phase (same name up to CNOT=CX, same qubits, same flag, angles equal modulo the period)",
+                   reason=f"{label}: __eq__ gives {got}, expected {want}")
